@@ -449,6 +449,7 @@ int main(int argc, char** argv) {
   g_property = "C40";
   parse_args(argc, argv);
   install_handlers();
+  engine_warmup();
   setvbuf(stdout, 0, _IOLBF, 0);
   mju_user_error = on_error;
   mju_user_warning = on_warning;
